@@ -383,6 +383,15 @@ def cancel_scripts(quick, counts):
                     out.append([c, c, ['open', kind, 1, side, var]])
         if kind != 'cl':
             out.append([['cancel', kind, 1, 'c', var, 1, {'refused': True}] for _ in range(70)] + [['open', kind, 1, 'c', var]])
+    # a fragmented identifier space (holes left by closed channels) and an open that needs several identifiers at once
+    for side in ('c', 'p'):
+        for hole in ([0], [1], [0, 2]) if not quick else ([0], [1]):
+            for closer in ('client', 'server'):
+                ops = [['open', 'le', 1, side, 0] for _ in range(3 if max(hole) < 2 else 4)]
+                ops += [['close', h, closer] for h in hole]
+                ops.append(['open', 'ec', 1, side, 2])
+                ops.append(['open', 'le', 1, side, 0])
+                out.append(ops)
     # churn: a leaked identifier per cancelled attempt exhausts the 64 dynamic LE CIDs / wraps the identifiers
     for (kind, var), n in counts.items():
         per = var if kind == 'ec' else 1
